@@ -1,35 +1,175 @@
-(* multi_mode_dot with the modes as Python ints, both backends AS THEY ARE (Model/Tenalg.v multi_mode_dot_z / multi_mode_dot_e_z):
-   the operands are sorted by the raw mode numbers, so a negative mode is processed before the non-negative ones and the later
-   `mode - decrement` (which presumes smaller number = earlier mode) contracts the wrong mode once a vector operand has been
-   absorbed.  Refuted by a computed witness for both backends; a call with a single operand is right for every mode. *)
+(* multi_mode_dot with the modes as Python ints (Model/Tenalg.v multi_mode_dot_z / multi_mode_dot_e_z: since /repo 92eb2a5 the
+   modes are resolved - negative ones counted from the end - BEFORE the sort; then, as before, sort by mode number and
+   mode - decrement resolved by NumPy / Python list indexing).  For every list of valid Python modes (-N <= z < N) whose resolved
+   values are distinct on the non-skipped operands both backends compute exactly what the non-negative-mode model computes,
+   hence the index formula of multi_mode_dot_full_natural and core = einsum.  The rule before 92eb2a5 (sort by the RAW numbers)
+   is kept as a labelled regression Example. *)
 From Coq Require Import List Arith ZArith Lia Bool.
-From TLV Require Import Base.Shape Base.PyList Base.Tensor Base.BigSum Model.Base Model.Tenalg.
+From TLV Require Import Base.Shape Base.PyList Base.Tensor Base.BigSum Model.Base Proofs.BaseProofs Model.Tenalg
+  Proofs.TenalgProofs Proofs.TenalgProofsMulti Proofs.TenalgProofsSort Proofs.TenalgProofsMultiGen Proofs.TenalgProofsMultiGen2
+  Proofs.TenalgProofsEinsumMulti Proofs.TenalgProofsValidate Proofs.TenalgProofsNegMode.
 Import ListNotations.
 
-(* T of shape (2,2,2), v0 on mode 0, v2 on mode -1 (= mode 2): the textbook result is [53; 77]; the core backend returns
-   [37; 85] and the einsum backend [22; 108], both without an error *)
-Theorem multi_mode_dot_negative_modes_refuted :
-  exists (T v0 v2 R Rc Re : tensor Z),
-    wf T /\ shape T = [2; 2; 2] /\ shape v0 = [2] /\ shape v2 = [2] /\
-    multi_mode_dot ZR T [v0; v2] (Some [0; 2]) None false = Ok R /\
-    multi_mode_dot_e ZR T [v0; v2] (Some [0; 2]) None false = Ok R /\
-    multi_mode_dot_z ZR T [v0; v2] [0; -1]%Z None false = Ok Rc /\
-    multi_mode_dot_e_z ZR T [v0; v2] [0; -1]%Z None false = Ok Re /\
-    Rc <> R /\ Re <> R.
+Lemma leb_of_nat a b : (Z.of_nat a <=? Z.of_nat b)%Z = (a <=? b).
+Proof. destruct (Nat.leb_spec a b); [apply Z.leb_le | apply Z.leb_gt]; lia. Qed.
+Lemma norm_mode_valid order z k : py_index order z = Some k -> norm_mode order z = Z.of_nat k.
 Proof.
-  exists (mk [2; 2; 2] [1; 2; 3; 4; 5; 6; 7; 8]%Z), (mk [2] [1; 2]%Z), (mk [2] [1; 3]%Z),
-         (mk [2] [53; 77]%Z), (mk [2] [37; 85]%Z), (mk [2] [22; 108]%Z).
-  repeat split; try (vm_compute; reflexivity); discriminate.
+  intros H. destruct (py_index_spec _ _ _ H) as [Hk [[A B]|[A B]]]; unfold norm_mode.
+  - assert (E : (z <? 0)%Z = false) by (apply Z.ltb_ge; lia). rewrite E, andb_false_r. lia.
+  - assert (E : ((- Z.of_nat order <=? z) && (z <? 0))%Z = true) by (apply andb_true_iff; split; [apply Z.leb_le | apply Z.ltb_lt]; lia).
+    rewrite E. lia.
 Qed.
+Lemma norm_modes_valid order : forall ms ks, Forall2 (fun z k => py_index order z = Some k) ms ks ->
+  map (norm_mode order) ms = map Z.of_nat ks.
+Proof. induction 1; cbn [map]; [reflexivity|]. f_equal; [now apply norm_mode_valid | assumption]. Qed.
 
 Section P.
 Context {F : Type} (Op : rops F).
 
-(* what does hold for every mode: a single operand (no sort, no decrement) *)
-Theorem multi_mode_dot_z_single (T M : tensor F) (z : Z) (tr : bool) :
-  multi_mode_dot_z Op T [M] [z] None tr = mode_dot_z Op T (if tr then conj_t Op (transpose_rev Op M) else M) z false.
+Definition lift (x : @triple F) : @ztriple F := (fst (fst x), Z.of_nat (t_mode x), snd x).
+
+Lemma insert_sorted_lift x : forall l, insert_sorted_z (lift x) (map lift l) = map lift (insert_sorted x l).
 Proof.
-  unfold multi_mode_dot_z, zip3z, sort_by_mode_z. cbn [length seq combine fold_right insert_sorted_z mmd_loop_z is_skip].
-  rewrite Z.sub_0_r. destruct (mode_dot_z Op T (if tr then conj_t Op (transpose_rev Op M) else M) z false); reflexivity.
+  induction l as [|y l IH]; [reflexivity|]. cbn [map insert_sorted_z insert_sorted]. unfold zt_mode at 1 2. cbn [lift fst snd].
+  rewrite leb_of_nat. destruct (t_mode x <=? t_mode y); [reflexivity|]. cbn [map]. now rewrite IH.
 Qed.
+Lemma sort_by_mode_lift : forall l, sort_by_mode_z (map lift l) = map lift (sort_by_mode l).
+Proof.
+  induction l as [|x l IH]; [reflexivity|]. cbn [map]. unfold sort_by_mode_z, sort_by_mode in *. cbn [fold_right].
+  rewrite IH. apply insert_sorted_lift.
+Qed.
+Lemma zip3z_lift (Ms : list (tensor F)) (ks : list nat) : zip3z Ms (map Z.of_nat ks) = map lift (zip3 Ms (Some ks)).
+Proof.
+  unfold zip3z, zip3. generalize (seq 0 (length Ms)). revert ks.
+  induction Ms as [|M Ms IH]; intros [|k ks] [|i l]; cbn [map combine]; try reflexivity. f_equal. apply IH.
+Qed.
+Lemma filter_lift (P : nat -> bool) : forall l, filter (fun x : @ztriple F => P (snd x)) (map lift l) = map lift (filter (fun x => P (snd x)) l).
+Proof. induction l as [|x l IH]; [reflexivity|]. cbn [map filter lift snd]. destruct (P (snd x)); cbn [map]; now rewrite IH. Qed.
+
+Lemma mode_dot_z_of_nat (T M : tensor F) k tr : mode_dot_z Op T M (Z.of_nat k) tr = mode_dot Op T M k tr.
+Proof.
+  unfold mode_dot_z. destruct (Nat.lt_ge_cases k (ndim T)) as [H|H].
+  - now rewrite (py_index_nat _ _ H).
+  - rewrite (py_index_nat_out _ _ H). unfold mode_dot. apply Nat.ltb_ge in H.
+    destruct (shape M) as [|a [|b [|c r]]]; try reflexivity; now rewrite H.
+Qed.
+
+Lemma mmd_loop_z_filter_skip skip tr : forall (l : list (@ztriple F)) dec acc,
+  mmd_loop_z Op l skip tr dec acc = mmd_loop_z Op (filter (fun x => negb (is_skip skip (snd x))) l) None tr dec acc.
+Proof.
+  induction l as [|[[M m] i] l IH]; intros dec acc; [reflexivity|].
+  cbn [mmd_loop_z filter snd]. destruct (is_skip skip i) eqn:E; cbn [negb]; [apply IH|].
+  cbn [mmd_loop_z is_skip].
+  destruct (mode_dot_z Op acc (if tr then conj_t Op (transpose_rev Op M) else M) (m - dec) false); cbn [rbind]; [|reflexivity].
+  apply IH.
+Qed.
+Lemma mmd_e_loop_z_filter_skip skip tr order : forall (l : list (@ztriple F)) st,
+  mmd_e_loop_z Op l skip tr order st = mmd_e_loop_z Op (filter (fun x => negb (is_skip skip (snd x))) l) None tr order st.
+Proof.
+  induction l as [|[[M m] i] l IH]; intros st; [reflexivity|].
+  cbn [mmd_e_loop_z filter snd]. destruct (is_skip skip i) eqn:E; cbn [negb]; [apply IH|].
+  cbn [mmd_e_loop_z is_skip].
+  destruct (py_index order m); [|reflexivity]. destruct (py_index (length (s_out st)) (m - Z.of_nat (s_dec st))); [|reflexivity].
+  destruct (ndim M) as [|[|[|k]]]; try reflexivity; apply IH.
+Qed.
+
+(* the loops on resolved, strictly increasing modes: mode - decrement never goes below zero *)
+Lemma mmd_loop_z_lift tr : forall (L : list (@triple F)) dec acc,
+  lsorted (@t_mode F) L -> NoDup (map (@t_mode F) L) -> (forall y, In y L -> dec <= t_mode y) ->
+  mmd_loop_z Op (map lift L) None tr (Z.of_nat dec) acc = mmd_loop Op L None tr dec acc.
+Proof.
+  induction L as [|[[M m] i] L IH]; intros dec acc Hs Hnd Hd; [reflexivity|].
+  destruct Hs as [Hx Hs]. cbn [map] in Hnd. apply NoDup_cons_iff in Hnd. destruct Hnd as [Hnin Hnd'].
+  assert (Hdm : dec <= m) by (apply (Hd (M, m, i)); now left).
+  cbn [map lift mmd_loop_z mmd_loop is_skip t_mode fst snd].
+  replace (Z.of_nat m - Z.of_nat dec)%Z with (Z.of_nat (m - dec)) by lia. rewrite mode_dot_z_of_nat.
+  destruct (mode_dot Op acc (if tr then conj_t Op (transpose_rev Op M) else M) (m - dec) false) as [acc'|]; cbn [rbind]; [|reflexivity].
+  assert (Hrest : forall y, In y L -> S m <= t_mode y).
+  { intros y Hy. specialize (Hx y Hy). cbn [t_mode fst snd] in Hx. assert (t_mode y <> m); [|lia].
+    intros E. apply Hnin. cbn [t_mode fst snd]. rewrite <- E. now apply in_map. }
+  destruct (ndim M =? 1).
+  - replace (Z.of_nat dec + 1)%Z with (Z.of_nat (S dec)) by lia. apply IH; auto. intros y Hy. specialize (Hrest y Hy). lia.
+  - apply IH; auto. intros y Hy. specialize (Hrest y Hy). lia.
+Qed.
+Lemma mmd_e_loop_z_lift tr order : forall (L : list (@triple F)) st,
+  lsorted (@t_mode F) L -> NoDup (map (@t_mode F) L) -> (forall y, In y L -> s_dec st <= t_mode y) ->
+  length (s_out st) + s_dec st = order ->
+  mmd_e_loop_z Op (map lift L) None tr order st = mmd_e_loop Op L None tr order st.
+Proof.
+  induction L as [|[[M m] i] L IH]; intros st Hs Hnd Hd Hlen; [reflexivity|].
+  destruct Hs as [Hx Hs]. cbn [map] in Hnd. apply NoDup_cons_iff in Hnd. destruct Hnd as [Hnin Hnd'].
+  assert (Hdm : s_dec st <= m) by (apply (Hd (M, m, i)); now left).
+  assert (Hrest : forall y, In y L -> S m <= t_mode y).
+  { intros y Hy. specialize (Hx y Hy). cbn [t_mode fst snd] in Hx. assert (t_mode y <> m); [|lia].
+    intros E. apply Hnin. cbn [t_mode fst snd]. rewrite <- E. now apply in_map. }
+  cbn [map lift mmd_e_loop_z mmd_e_loop is_skip t_mode fst snd].
+  destruct (Nat.lt_ge_cases m order) as [Hm|Hm].
+  - rewrite (py_index_nat _ _ Hm). replace (Z.of_nat m - Z.of_nat (s_dec st))%Z with (Z.of_nat (m - s_dec st)) by lia.
+    rewrite py_index_nat by lia. apply Nat.ltb_lt in Hm. rewrite Hm. cbn [negb]. apply Nat.ltb_lt in Hm.
+    destruct (ndim M) as [|[|[|k]]]; try reflexivity.
+    + apply IH; cbn [s_dec s_out]; auto.
+      * intros y Hy. specialize (Hrest y Hy). lia.
+      * rewrite remove_nth_length by lia. lia.
+    + apply IH; cbn [s_dec s_out]; auto.
+      * intros y Hy. specialize (Hrest y Hy). lia.
+      * now rewrite set_nth_length.
+  - rewrite (py_index_nat_out _ _ Hm). apply Nat.ltb_ge in Hm. rewrite Hm. cbn [negb].
+    destruct (ndim M) as [|[|[|k]]]; reflexivity.
+Qed.
+
+(* ================================================================ any valid Python modes = the non-negative-mode model *)
+Theorem multi_mode_dot_z_resolved (T : tensor F) (Ms : list (tensor F)) (ms : list Z) (ks : list nat) (skip : option nat) (tr : bool) :
+  let L := filter (fun x => negb (is_skip skip (snd x))) (sort_by_mode (zip3 Ms (Some ks))) in
+  Forall2 (fun z k => py_index (ndim T) z = Some k) ms ks -> NoDup (map (@t_mode F) L) ->
+  multi_mode_dot_z Op T Ms ms skip tr = multi_mode_dot Op T Ms (Some ks) skip tr /\
+  multi_mode_dot_e_z Op T Ms ms skip tr = multi_mode_dot_e Op T Ms (Some ks) skip tr.
+Proof.
+  intros L Hv Hnd.
+  assert (HsL : lsorted (@t_mode F) L) by (unfold L; apply lsorted_filter; rewrite sort_by_mode_gsort; apply gsort_sorted).
+  split.
+  - unfold multi_mode_dot_z, multi_mode_dot. rewrite (norm_modes_valid _ _ _ Hv), zip3z_lift, sort_by_mode_lift.
+    rewrite mmd_loop_z_filter_skip, (mmd_loop_filter_skip_gen Op).
+    rewrite (filter_lift (fun i => negb (is_skip skip i))). fold L.
+    apply (mmd_loop_z_lift tr L 0 T HsL Hnd). intros; lia.
+  - unfold multi_mode_dot_e_z, multi_mode_dot_e_z_gen, multi_mode_dot_e. cbv zeta.
+    rewrite (norm_modes_valid _ _ _ Hv), zip3z_lift, sort_by_mode_lift.
+    rewrite mmd_e_loop_z_filter_skip, (mmd_e_loop_filter_skip Op).
+    rewrite (filter_lift (fun i => negb (is_skip skip i))). fold L.
+    rewrite (mmd_e_loop_z_lift tr (ndim T) L _ HsL Hnd); [reflexivity | cbn [s_dec]; intros; lia | cbn [s_out s_dec]; rewrite seq_length; lia].
+Qed.
+
 End P.
+
+Section Q.
+Context {F : Type} (Op : rops F).
+Hypothesis Rth : ring_theory (r0 Op) (r1 Op) (radd Op) (rmul Op) (rsub Op) (ropp Op) (@eq F).
+Notation d := (r0 Op).
+Infix "*r" := (rmul Op) (at level 40, left associativity).
+
+(* the index formula for every list of valid Python modes, both backends *)
+Theorem multi_mode_dot_z_full (T : tensor F) (Ms : list (tensor F)) (ms : list Z) (ks : list nat) (skip : option nat) (tr : bool) :
+  let L := filter (fun x => negb (is_skip skip (snd x))) (sort_by_mode (zip3 Ms (Some ks))) in
+  Forall2 (fun z k => py_index (ndim T) z = Some k) ms ks ->
+  wf T -> 0 < prod (shape T) -> NoDup (map (@t_mode F) L) -> Forall (operand_fits tr (shape T)) L ->
+  exists R, multi_mode_dot_z Op T Ms ms skip tr = Ok R /\ multi_mode_dot_e_z Op T Ms ms skip tr = Ok R /\
+    wf R /\ shape R = outs tr L 0 (shape T) /\
+    forall o, inb (shape R) o ->
+      get d R o = ssum Op (sizes L 0 (shape T)) (fun is_ => coef Op tr L 0 is_ o *r get d T (full L 0 is_ o)).
+Proof.
+  intros L Hv W Hpos Hnd Hfit. destruct (multi_mode_dot_z_resolved Op T Ms ms ks skip tr Hv Hnd) as [E1 E2].
+  destruct (multi_mode_dot_full_natural Op Rth T Ms (Some ks) skip tr W Hpos Hnd Hfit) as [R [ER [WR [SR GR]]]].
+  exists R. rewrite E1, E2, <- (multi_mode_dot_backends_agree Op Rth T Ms (Some ks) skip tr W Hpos Hnd Hfit). auto.
+Qed.
+End Q.
+
+(* regression (defect repaired by /repo 92eb2a5): v0 on mode 0 and v2 on mode -1 of a (2,2,2) tensor; the textbook value is
+   [53; 77]; sorting by the raw mode numbers gave [37; 85] (core) and [22; 108] (einsum) *)
+Example multi_mode_dot_negative_modes_before_92eb2a5 :
+  let T : tensor Z := mk [2; 2; 2] [1; 2; 3; 4; 5; 6; 7; 8]%Z in
+  let v0 : tensor Z := mk [2] [1; 2]%Z in let v2 : tensor Z := mk [2] [1; 3]%Z in
+  multi_mode_dot ZR T [v0; v2] (Some [0; 2]) None false = Ok (mk [2] [53; 77]%Z) /\
+  multi_mode_dot_z_before_92eb2a5 ZR T [v0; v2] [0; -1]%Z None false = Ok (mk [2] [37; 85]%Z) /\
+  multi_mode_dot_e_z_before_92eb2a5 ZR T [v0; v2] [0; -1]%Z None false = Ok (mk [2] [22; 108]%Z) /\
+  multi_mode_dot_z ZR T [v0; v2] [0; -1]%Z None false = Ok (mk [2] [53; 77]%Z) /\
+  multi_mode_dot_e_z ZR T [v0; v2] [0; -1]%Z None false = Ok (mk [2] [53; 77]%Z).
+Proof. cbv zeta. repeat split; vm_compute; reflexivity. Qed.
